@@ -4,7 +4,7 @@ import common as C
 import gen_msg as GM
 
 
-PAR = int(os.environ.get("VERIF_PAR", "8"))
+PAR = int(os.environ.get("VERIF_PAR", "12"))
 
 
 class Plan:
@@ -158,7 +158,7 @@ def run_check(pid, tier, replay=None):
                 for s in scheds:
                     chunk.append(s)
                     size += len(s["steps"]) + 60
-                    if size > 12000:
+                    if size > 6000:
                         batches.append(("model:" + res["name"], chunk))
                         chunk, size = [], 0
                 if chunk:
